@@ -2,6 +2,8 @@
 import json, math, os, re, sys
 import vlib
 from vlib import Toks, lst, f2h, h2f, Broken
+sys.path.insert(0, os.path.dirname(os.path.abspath(__file__)))
+import c06_translate
 
 ID = "C06"
 LEVEL = "proof"
@@ -50,6 +52,23 @@ OBLIGATIONS = [NS + t for t in [
     "affine_comp_hasDerivAt_line", "sum_hasDerivAt_line", "ridge_hasDerivAt_line",
     # declared flags
     "flags_covered", "smooth_covered", "gradient_covered", "strong_covered", "strong_values_covered",
+    # gap-closing round: the tensor interface of the losses (per-sample independence for every batch size / sample shape)
+    "loss_batch_entry_own_sample", "loss_batch_eq_each_alone", "loss_batch_vgrad_own_sample", "loss_batch_append",
+    "batchMap_eq_range", "vgrad_length",
+    # ... the hypothesis of classnll_nonneg is necessary (witnesses replayed on the code: corpus)
+    "classnll_negative_two_positives", "classnll_negative_no_positive", "pinball_negative_outside_domain",
+    # ... declared strong-convexity coefficients of the quadratic objects are valid moduli; flags need the symmetric part
+    "quadform_gap", "quadform_sym_gap", "quadratic_subgrad_mu", "cquad_subgrad_mu", "cquad_flags_need_symmetric_part",
+    # ... make(dims, summands): size rules for every dims 1..32; powell writes every gradient component iff 4 | size
+    "sizes_covered", "size_rule_by_id", "powell_size", "powell_gradient_complete", "powell_value_ignores_tail",
+    # ... every gradient component is written (the model's gradient has the dimension of the point)
+    "gradient_length_unconditional", "gradient_length_shaped", "gradient_length_real", "dixonG_length", "kinksG_length",
+    # ... function_t base class: constrain acceptance, stored constraints, valid, call counters (every history)
+    "function_constraints_invariant", "function_constrain_acceptance", "function_box_counts", "function_valid_iff",
+    "function_call_counters", "step_inv", "run_calls",
+    # ... the loss kernels of the model ARE the formulas of the source (Gen/LossKernels.lean, rfl for any scalar type)
+    "model_loss_value_kernels_are_generated", "model_loss_grad_kernels_are_generated", "model_loss_values_are_generated",
+    "model_loss_vgrads_are_generated", "model_count_edges_is_generated",
 ]]
 TRUSTED = [
     "Lean 4.33.0 kernel; Mathlib modules imported by NanoVerif/Proofs/C06*.lean and NanoVerif/Props/C06.lean (Tactic.Ring, "
@@ -70,6 +89,16 @@ TRUSTED = [
     "regularisation factors of the elastic-net prototypes are read from their ids; the five matrices / vectors of maxquad (private "
     "members) are recomputed in the harness with a copy of the two fill() formulas of maxquad.cpp:7-43 (a changed formula in the "
     "source shows up as a model/implementation disagreement)",
+    "NanoVerif/Gen/LossKernels.lean is re-translated from include/nano/loss/flatten.h, include/nano/loss/error.h, src/loss/pinball.cpp by "
+    "tools/props/c06_translate.py on every run (10 value + 10 gradient kernels, the L1 error, the multi-label edge test) and proved equal "
+    "to the text of Model/Loss.lean by rfl for every scalar type; hand-written only: classnll_t, sclass_t::error",
+    "hand-written models NanoVerif/Model/LossBatch.lean (the loops over the samples of the 4-D tensors) and NanoVerif/Model/FunctionsBase.lean "
+    "(function_t: constrain x4, valid, call counters, size rules of make) tied to the code by the op families `loss batch|batch4`, "
+    "`fbase hist`, `fn flags`; NanoVerif/Model/Constraint.lean (C05's model) supplies compatible / valid / is_equality",
+    "run-time monitors (python, independent of Eigen / of the library): Jacobi eigenvalues of (P+P')/2 against the declared convex / "
+    "strong_convexity of every quadratic constraint op and of A for every `fn flags quadratic` op; symmetry + diagonal dominance of the "
+    "maxquad matrices; nano::is_convex (the library's own chord test) on every `fn cvx` op; sentinel pre-fill of every gradient / result "
+    "buffer handed to the library",
     "tools/props/c06.py generator + oracle (difference quotients, convexity inequality, error rules); harness/c06.cpp incl. its random "
     "local search for violating pairs (its results are re-checked by the python oracle); g++/libstdc++/Eigen",
 ]
@@ -79,7 +108,18 @@ ASSUMPTIONS = [
     "s-classnll as coded adds epsilon inside the logarithm but not in its gradient: the sub-gradient inequality holds up to the additive "
     "constant log(1+epsilon) <= 2.3e-16 (theorem classnll_subgrad_eps; exact for epsilon = 0: classnll_subgrad)",
     "loss values are non-negative for s-classnll only when the target has exactly one positive entry (classnll_nonneg); the library "
-    "feeds one-hot targets to single-label losses; other patterns are generated, evaluated and only counted",
+    "feeds one-hot targets to single-label losses; other patterns (0, 2, 3 positive labels) are generated for every s-* / m-* loss and "
+    "every number of outputs and checked for value / gradient / error, only the sign of the s-classnll value is exempt. The hypothesis is "
+    "necessary: classnll_negative_two_positives / classnll_negative_no_positive (kernel-checked, replayed on the code by two corpus ops "
+    "that REQUIRE a negative value); pinball needs alpha in [0, 1] (pinball_negative_outside_domain; the parameter refuses other values: "
+    "corpus op)",
+    "per-sample independence is a theorem about the model of the tensor interface (loss_batch_entry_own_sample, loss_batch_eq_each_alone, "
+    "loss_batch_vgrad_own_sample: every number of samples, every sample shape) and a correspondence family (model vs real batch call, "
+    "and batch vs one-sample calls) with 1, 2, 3, 5, 7, 11 samples of 1..27 scalars",
+    "declared strong-convexity coefficients: valid moduli by theorem for sphere, axis-ellipsoid, exponential, the euclidean ball, the "
+    "elastic-net prototypes (strong_values_covered ties the dumped VALUES 2, 2/2^k, alpha2 to the theorems) and — under the contract "
+    "mu |d|^2 <= d.Ad monitored by python Jacobi rotations — for quadratic and the quadratic constraints (quadratic_subgrad_mu, "
+    "cquad_subgrad_mu); tightness is not claimed; the linear::function_t finding stays open",
     "quadratic (benchmark) is convex under the hypothesis that its matrix A = I + R R' is self-adjoint and positive semi-definite "
     "(hypotheses of quadratic_subgrad); the quadratic constraint kinds (symmetrised gradient, 78c1895) for every square P with "
     "d.Pd >= 0 (hypothesis of cquad_subgrad, no symmetry needed); the eigenvalue tests of nano::convex / nano::strong_convexity "
@@ -110,7 +150,15 @@ ASSUMPTIONS = [
     "tested (difference quotients), not modelled",
 ]
 RTOL = 1e-9
-RULE = ("corpus; all function prototypes of function_t::all() x dims (quick: 1, 2 and 6 further of 1..32; thorough: 1..32) x summands "
+RULE = ("gap-closing additions: `fn flags` for every prototype x dims 1..32 (size rule, declared coefficient against the known modulus, "
+        "Jacobi / dominance monitors); every gradient buffer pre-filled with a sentinel (an unwritten component is a violation); class "
+        "patterns with 0, 1, 2, 3 positive labels for every s-* / m-* loss x 1..13 outputs (sample: value / gradient / error; cd; cvx); "
+        "`loss batch4`: 1, 2, 3, 5, 7, 11 samples of shape (d1, d2, d3), d_i in 1..3; `fbase hist`: 150 / 1500 histories of 2..12 operations "
+        "(constrain x4 with a third deliberately incompatible / min >= max / dimension -1, size, size+3 / vectors of the wrong size, valid at "
+        "dyadic points on and off the boundaries, vgrad with and without gradient, clear_statistics) on 8 prototypes x dims 1..9; "
+        "upper-triangular non-symmetric P with a positive diagonal and an off-diagonal entry above 2 sqrt(p_ii p_jj) (spectrum of P all "
+        "positive, symmetric part indefinite); linear / gboost-bias objectives over a SUBSET of the samples, multi-output. Then: "
+        "corpus; all function prototypes of function_t::all() x dims (quick: 1, 2 and 6 further of 1..32; thorough: 1..32) x summands "
         "{1,7,30}: value-only vs value+gradient, difference quotients along random directions at two step sizes, the declared convexity "
         "inequality (with the declared mu) for x, z in boxes of radius 1e-3..10 and after a random local search on the violation; constructed "
         "exact ties of the pieces of chained_cb3I/II (v1 = v2 > v3), chained_lq, maxq, maxhilb, maxquad, kinks of kinks / |.| / hinge / pinball / "
@@ -126,6 +174,8 @@ FLAVOUR = {"quick": "plain", "thorough": "asan"}
 HARNESS_TIMEOUT = 1500
 EPS = 2.220446049250313e-16
 DUMP_DIMS = [1, 2, 3, 4, 8, 16, 32]
+MAX_DIMS = 32                                  # sizes are dumped (and tied to the model's size rule) for every dims 1..32
+SENTINEL = f2h(-7.2511e+77)                    # harness/c06.cpp kSentinel: pre-fill of every gradient buffer
 RADII = [1e-3, 1e-2, 1e-1, 1.0, 10.0]
 MODELLED_FN = {"sphere", "axis-ellipsoid", "schumer-steiglitz", "qing", "styblinski-tang", "chung-reynolds", "sargan", "zakharov",
                "rotated-ellipsoid", "trid", "chained_lq", "rosenbrock", "dixon-price", "powell", "maxq", "maxhilb", "chained_cb3I",
@@ -156,7 +206,7 @@ def _run_dump():
     fl = FLAVOUR.get(_tier(), "plain")
     vlib.build_repo(fl)
     exe = vlib.build_harness(HARNESS, fl)
-    ops = ["dump flags " + lst(DUMP_DIMS)] + [f"dump kinks {d}" for d in range(1, 33)]
+    ops = ["dump flags " + lst(DUMP_DIMS)] + [f"dump kinks {d}" for d in range(1, 33)] + [f"dump sizes {MAX_DIMS}"]
     aug, res, crash = vlib.run_harness(exe, ops, timeout=300)
     if crash is not None or len(res) != len(ops):
         raise Broken("translate:Flags", f"the flags dump crashed: {crash}")
@@ -170,15 +220,22 @@ def _run_dump():
         losses.append(dict(id=t.s(), convex=t.int(), smooth=t.int()))
     for _ in range(t.int()):
         cts.append(dict(id=t.s(), convex=t.int(), smooth=t.int(), mu=t.f()))
+    z = Toks(res[-1])
+    if z.s() != "ok":
+        raise Broken("translate:Flags", res[-1][:200])
+    sizes = {}
+    for _ in range(z.int()):
+        i = z.s()
+        sizes[i] = [z.int() for _ in range(MAX_DIMS)]
     kinks = {}
-    for d, r in zip(range(1, 33), res[1:]):
+    for d, r in zip(range(1, 33), res[1:-1]):
         k = Toks(r)
         if k.s() != "ok":
             raise Broken("translate:Flags", r[:200])
         rows, cols = k.int(), k.int()
         data = k.fs()
         kinks[str(d)] = [data[i * cols:(i + 1) * cols] for i in range(rows)]
-    return dict(fns=fns, losses=losses, cts=cts, kinks=kinks)
+    return dict(fns=fns, losses=losses, cts=cts, kinks=kinks, sizes=sizes)
 
 
 def lean_name(prefix, s):
@@ -214,16 +271,23 @@ def flags_text(d):
     out += ["deriving DecidableEq, Repr", "",
             "/-- the id the object is registered under -/", "def Obj.id : Obj → String"]
     out += [f"  | .{n} => \"{i}\"" for n, i in objs]
+    out += ["", "/-- the registered id alone (without the family prefix) -/", "def Obj.rawId : Obj → String"]
+    out += [f"  | .{n} => \"{i.split(':', 1)[1]}\"" for n, i in objs]
     out += ["", "/-- one declaration: object, dimension asked for (0 for losses), `convex()`, `smooth()`, `strong_convexity() > 0`, its bits -/",
             "structure Row where", "  obj : Obj", "  dims : Nat", "  convex : Bool", "  smooth : Bool", "  strong : Bool",
             "  muBits : Nat  -- bit pattern of the declared strong_convexity() (IEEE binary64)",
             "deriving DecidableEq, Repr", "", "def rows : List Row := ["]
     out.append(",\n".join(f"  ⟨.{n}, {dm}, {b(c)}, {b(s)}, {b(mu > 0)}, 0x{f2h(mu)}⟩" for n, dm, c, s, mu in rows))
+    out += ["]", "",
+            f"/-- `function_t::size()` of `make(dims, summands)` for every registered prototype and every requested dims 1..{MAX_DIMS} -/",
+            "def sizes : List (Obj × List Nat) := ["]
+    out.append(",\n".join(f"  (.{lean_name('fn', i)}, [{', '.join(str(v) for v in d['sizes'][i])}])" for i in d["sizes"]))
     out += ["]", "", "end NanoVerif.Gen.Flags", ""]
     return "\n".join(out)
 
 
 def translate():
+    c06_translate.translate()   # Gen/LossKernels.lean from flatten.h / error.h / pinball.cpp (source text)
     d = _run_dump()
     os.makedirs(vlib.CACHE, exist_ok=True)
     with open(_dump_path(), "w") as f:
@@ -241,7 +305,7 @@ def dump():
     if _DUMP is None:
         if os.path.exists(_dump_path()):
             _DUMP = json.load(open(_dump_path()))
-        else:
+        if _DUMP is None or "sizes" not in _DUMP:
             _DUMP = _run_dump()
     return _DUMP
 
@@ -288,6 +352,16 @@ def static_checks():
         bad.append(f"only {len(ids)} function prototypes registered (the statement names 48)")
     if len(d["losses"]) < 17:
         bad.append(f"only {len(d['losses'])} losses registered (the statement names 17)")
+    # the flags in the header text (`static constexpr auto convex / smooth` of the kernel structs) are the ones dumped at run time
+    try:
+        gen = open(c06_translate.OUT).read()
+        hdr = {b: (c == "true", sm == "true") for b, c, sm in re.findall(r'\("([a-z-]+)", (true|false), (true|false)\)', gen)}
+        for L in d["losses"]:
+            base = L["id"][2:] if L["id"][:2] in ("s-", "m-") else L["id"]
+            if base in hdr and hdr[base] != (bool(L["convex"]), bool(L["smooth"])):
+                bad.append(f"loss {L['id']}: flags of the header {hdr[base]} != flags reported at run time")
+    except OSError:
+        bad.append("Gen/LossKernels.lean is missing")
     if _coverage_lists("provenSmooth") is None or _coverage_lists("testedOnlySmooth") is None:
         bad.append("Props/C06.lean: the lists provenSmooth / testedOnlySmooth are not found")
         return bad
@@ -499,13 +573,15 @@ def gen_functions(rng, tier):
             dims_list = list(range(1, 33))
         for dims in dims_list:
             summands = rng.choice([1, 7, 30])
-            size = by_id[fid].get(dims)
-            if size is None:  # sizes are known for DUMP_DIMS; the others follow the three rules of the constructors
-                size = max(dims, 2) if (fid == "rosenbrock" or "+" in fid) else (max(4, dims - dims % 4) if fid == "powell" else dims)
+            size = d["sizes"][fid][dims - 1]   # what size() reports (the size RULE is checked by the `fn flags` ops below)
             spec = ("fn", f"{fid} {dims} {summands}")
             P, tag = special_points(rng, fid, size, d["kinks"])
             ops += generic_ops(rng, spec, size, n_cd=3 if quick else 6, n_cvx=5 if quick else 10,
                                climb_steps=(40 if quick else 300), x0s=P, tag=tag)
+    # size() and the declared flags of make(dims, summands) for EVERY requested dims 1..32 (both tiers)
+    for fid in by_id:
+        for dims in range(1, MAX_DIMS + 1):
+            ops.append(f"fn flags {fid} {dims} {rng.choice([1, 3, 10])}")
     return ops
 
 
@@ -524,6 +600,15 @@ def class_patterns(rng, n, single):
         for _ in range(2):
             pats.append([rng.choice([-1.0, 1.0]) for _ in range(n)])
     return pats
+
+
+def positives_patterns(rng, n):
+    """one target with exactly j positive labels for every j in 0..min(3, n), at random positions"""
+    out = []
+    for j in range(0, min(3, n) + 1):
+        pos = set(rng.shuffle(list(range(n)))[:j])
+        out.append((j, [1.0 if i in pos else -1.0 for i in range(n)]))
+    return out
 
 
 def loss_outputs(rng, n, t, lid):
@@ -566,9 +651,20 @@ def gen_losses(rng, tier):
             else:
                 pats = [box(rng, n, 30.0), box(rng, n, 1.0), [0.0] * n]
             if quick and len(pats) > 6:
-                keep = rng.shuffle(pats)[:4]
+                keep = rng.shuffle(pats)[:3]
                 onehot0 = [1.0 if i == 0 else -1.0 for i in range(n)]
                 pats = keep + ([onehot0] if is_class else [])
+            if is_class:
+                # targets that are NOT one-hot: 0, 1, 2, 3 positive labels for every s-* and m-* loss at every n — value and
+                # gradient (model vs implementation, difference quotient), error (arg-max / sign rule), convexity
+                for j, t in positives_patterns(rng, n):
+                    if t not in pats:
+                        pats.append(t)
+                    o = box(rng, n, 3.0)
+                    spec = f"{lid} {f2h(alpha)} {fl(t)}"
+                    ops.append(f"loss cd {spec} {pts(stencil(o, direction(rng, n), step_for(o)))} #pos{j}")
+                    z = [[a + rng.uniform(-2.0, 2.0) for a in o] for _ in range(2)]
+                    ops.append(f"loss cvx {spec} {pts([o] + z)} #pos{j}")
             generic_budget = (n in (1, 2, 3, 13)) or not quick or rng.chance(0.25)
             for t in pats:
                 outs = loss_outputs(rng, n, t, lid)
@@ -587,6 +683,22 @@ def gen_losses(rng, tier):
                 T += t
                 O += rng.choice(loss_outputs(rng, n, t, lid))
             ops.append(f"loss batch {lid} {f2h(alpha)} {n} {m} {fl(T)} {fl(O)}")
+        # the 4-D tensor interface: samples of shape (d1, d2, d3), batch sizes that divide nothing (1, 2, 3, 5, 7, 11 samples
+        # of 1..27 scalars: every alignment of a sample inside the batch buffer)
+        for _ in range(3 if quick else 12):
+            d1, d2, d3 = rng.range(1, 3), rng.range(1, 3), rng.range(1, 3)
+            n = d1 * d2 * d3
+            m = rng.choice([1, 2, 3, 5, 7, 11])
+            alpha = rng.choice([0.0, 0.25, 0.5, 1.0]) if lid == "pinball" else 0.5
+            T, O = [], []
+            for _ in range(m):
+                if is_class:
+                    t = rng.choice(positives_patterns(rng, n))[1]
+                else:
+                    t = box(rng, n, 3.0)
+                T += t
+                O += rng.choice(loss_outputs(rng, n, t, lid))
+            ops.append(f"loss batch4 {lid} {f2h(alpha)} {d1} {d2} {d3} {m} {fl(T)} {fl(O)}")
     return ops
 
 
@@ -634,6 +746,108 @@ def gen_constraints(rng, tier):
                     P[0][1] += 1.0
                 spec = f"{kind} {fl([v for row in P for v in row])} {fl(box(rng, n, 1.0))} {f2h(0.5)}"
                 ops += generic_ops(rng, ("ct", spec), n, n_cd=2, n_cvx=2, climb_steps=20, tag="nonsym")
+        # upper-triangular P with a positive diagonal: the eigenvalues of P itself are its diagonal (all > 0), the symmetric
+        # part is indefinite as soon as one off-diagonal entry exceeds 2 sqrt(p_ii p_jj) — flags computed from P instead of
+        # (P + P')/2 declare such a constraint convex (and strongly convex)
+        for n in (2, 3, 4):
+            for _ in range(2 if tier == "quick" else 8):
+                P = [[(rng.range(1, 3) * 1.0 if i == j else (rng.range(-3, 3) * 0.5 if j > i else 0.0)) for j in range(n)]
+                     for i in range(n)]
+                i, j = 0, rng.range(1, n - 1)
+                big = rng.chance(0.7)
+                P[i][j] = (2.0 * math.sqrt(P[i][i] * P[j][j]) + rng.range(1, 4)) * rng.choice([-1.0, 1.0]) if big else 0.5
+                spec = f"{kind} {fl([v for row in P for v in row])} {fl(box(rng, n, 1.0))} {f2h(-0.25)}"
+                ops += generic_ops(rng, ("ct", spec), n, n_cd=1, n_cvx=2, climb_steps=20, tag="nonsym")
+    return ops
+
+
+# -- function_t base class: histories of constrain / valid / vgrad / clear_statistics ---------------------------------
+
+FBASE_IDS = ["sphere", "trid", "rosenbrock", "powell", "chained_lq", "qing", "maxq", "zakharov"]
+
+
+def dy(rng, r=3):
+    """a dyadic value in [-r, r] (multiples of 1/4: sums and products of a few of them are exact)"""
+    return rng.range(-4 * r, 4 * r) * 0.25
+
+
+def fbase_constraint(rng, size, fid, dims, sizes):
+    """(text, compatible?) of one `cg` op; a third of them deliberately incompatible"""
+    bad = rng.chance(0.33)
+    kind = rng.choice(["constant", "minimum", "maximum", "ball-eq", "ball-ineq", "linear-eq", "linear-ineq", "quadratic-eq",
+                       "quadratic-ineq", "functional-eq", "functional-ineq"])
+    if kind in ("constant", "minimum", "maximum"):
+        dim = rng.choice([size, size + 1, size + 7]) if bad else rng.below(size)
+        return f"{kind} {f2h(dy(rng))} {dim}"
+    if kind.startswith("ball"):
+        n = size + rng.choice([-1, 1, 2]) if (bad and rng.chance(0.5)) else size
+        n = max(n, 0)
+        radius = rng.choice([0.0, -1.0]) if (bad and n == size) else rng.range(1, 12) * 0.25
+        return f"{kind} {fl([dy(rng, 1) for _ in range(n)])} {f2h(radius)}"
+    if kind.startswith("linear"):
+        n = max(size + rng.choice([-1, 1, 3]), 0) if bad else size
+        return f"{kind} {fl([dy(rng, 1) for _ in range(n)])} {f2h(dy(rng))}"
+    if kind.startswith("quadratic"):
+        rows = cols = qn = size
+        if bad:
+            w = rng.below(3)
+            if w == 0:
+                rows = size + 1
+            elif w == 1:
+                cols = max(size - 1, 0) if size > 1 else size + 1
+            else:
+                qn = size + 1
+        return (f"{kind} {rows} {cols} {fl([dy(rng, 1) for _ in range(rows * cols)])} {fl([dy(rng, 1) for _ in range(qn)])} "
+                f"{f2h(dy(rng))}")
+    # functional: the wrapped function must have the same size
+    if bad:
+        cands = [(i, dd) for i in FBASE_IDS for dd in range(1, 10) if sizes[i][dd - 1] != size]
+    else:
+        cands = [(i, dd) for i in FBASE_IDS for dd in range(1, 10) if sizes[i][dd - 1] == size]
+    i, dd = rng.choice(cands)
+    return f"{kind} {i} {dd}"
+
+
+def gen_fbase(rng, tier):
+    d = dump()
+    sizes = d["sizes"]
+    ops = []
+    for _ in range(150 if tier == "quick" else 1500):
+        fid = rng.choice(FBASE_IDS)
+        dims = rng.range(1, 9)
+        size = sizes[fid][dims - 1]
+        hist = []
+        for _ in range(rng.range(2, 12)):
+            c = rng.below(12)
+            pt = lambda: fl([dy(rng, 2) for _ in range(size)])
+            if c <= 2:
+                hist.append("cg " + fbase_constraint(rng, size, fid, dims, sizes))
+            elif c == 3:
+                lo = dy(rng)
+                hi = rng.choice([lo, lo + 0.25, lo + 2.0, lo - 0.5])
+                hist.append(f"cb {f2h(lo)} {f2h(hi)}")
+            elif c == 4:
+                lo = dy(rng)
+                hi = rng.choice([lo, lo + 0.25, lo + 2.0, lo + 2.0, lo - 0.5])
+                hist.append(f"cd {f2h(lo)} {f2h(hi)} {rng.choice([-1, 0, size - 1, size - 1, rng.below(size), size, size + 3])}")
+            elif c == 5:
+                n1 = rng.choice([size, size, size, size + 1, max(size - 1, 1)])
+                n2 = rng.choice([size, size, size, size + 1])
+                lo = [dy(rng) for _ in range(n1)]
+                hi = [(lo[i] if i < n1 else 0.0) + rng.choice([0.25, 1.0, 2.0]) for i in range(n2)]
+                if rng.chance(0.25):
+                    k = rng.below(n2)
+                    hi[k] = (lo[k] if k < n1 else 0.0) + rng.choice([0.0, -0.25])
+                hist.append(f"cv {fl(lo)} {fl(hi)}")
+            elif c <= 7:
+                hist.append("v " + pt())
+            elif c <= 9:
+                hist.append(rng.choice(["e0 ", "e1 "]) + pt())
+            elif c == 10:
+                hist.append("clr")
+            else:
+                hist.append("v " + fl([0.0] * size))
+        ops.append(f"fbase hist {fid} {dims} {rng.choice([1, 5])} {len(hist)} " + " ".join(hist))
     return ops
 
 
@@ -667,6 +881,8 @@ def gen_objectives(rng, tier):
     for _ in range(reps):
         ttype = rng.choice(["R", "S", "M"])
         K = rng.range(1, 3) if ttype != "S" else rng.range(2, 4)
+        if ttype != "S" and rng.chance(0.5):
+            K = rng.range(2, 3)  # keep multi-output cases frequent
         S, I = rng.range(3, 14), rng.range(1, 4)
         lid = loss_for(rng, d, ttype)
         alpha = rng.choice([0.1, 0.5, 0.8])
@@ -686,6 +902,12 @@ def gen_objectives(rng, tier):
         if l1 > 0.0:
             x0 = [0.0 if (i < I * K and rng.chance(0.5)) else a for i, a in enumerate(x)]
             ops += generic_ops(rng, spec, size, 0, 0, 0, x0s=[x0], tag="kink")
+        # the iterator over a SUBSET of the samples (not the whole dataset), multi-output: value and gradient must be normalised
+        # by the same count (the iterator's), and the L2 term by the number of weights I*K
+        sub = rng.shuffle(list(range(S)))[:rng.range(1, max(1, S - 1))]
+        sspec = ("linsub", f"{head} {lst(sub)} {f2h(l1)} {f2h(l2)}")
+        ops += generic_ops(rng, sspec, size, n_cd=2, n_cvx=1, climb_steps=0, tag="subset")
+        ops += generic_ops(rng, ("gbiassub", f"{head} {lst(sub)}"), K, n_cd=1, n_cvx=1, climb_steps=0, tag="subset")
         ops += generic_ops(rng, ("gbias", head), K, n_cd=2, n_cvx=2, climb_steps=cs)
         ops += generic_ops(rng, ("ggrads", head), S * K, n_cd=2, n_cvx=2, climb_steps=cs)
         G = rng.range(1, 3)
@@ -712,6 +934,7 @@ def gen(rng, tier):
     ops += gen_losses(rng.fork(), tier)
     ops += gen_constraints(rng.fork(), tier)
     ops += gen_objectives(rng.fork(), tier)
+    ops += gen_fbase(rng.fork(), tier)
     return ops
 
 
@@ -744,7 +967,11 @@ def model_skip(aug):
         return True
     fam, op = t[0], t[1]
     if fam == "loss":
-        return op not in ("sample", "eval")
+        return op not in ("sample", "eval", "batch", "batch4")
+    if fam == "fbase":
+        return op != "hist"
+    if fam == "fn" and op == "flags":
+        return False
     if op != "eval":
         return True
     if fam == "fn":
@@ -763,6 +990,8 @@ def compare(aug, impl, model):
     a = impl.split()
     if t[0] == "loss" and t[1] == "sample" and len(a) > 2:
         a = a[:-2]  # the declared flags are not part of the model's answer
+    if t[0] == "fn" and t[1] == "flags":
+        a = a[:2]   # `ok size`: the size rule is the model's, the declared flags are the implementation's (Gen/Flags.lean)
     b = model.split()
     if len(a) != len(b):
         return False
@@ -815,7 +1044,7 @@ def read_object(t):
         else:
             kind = f"{kind}({t.s()})"; t.int(); t.int()
         return fam, op, kind, info
-    if fam in ("lin", "gbias", "ggrads", "gscale"):
+    if fam in ("lin", "gbias", "ggrads", "gscale", "linsub", "gbiassub"):
         lid = t.s(); t.f(); t.int(); info["threads"] = t.int()
         S, I = t.int(), t.int(); tt = t.s(); K = t.int()
         t.fs()
@@ -824,7 +1053,9 @@ def read_object(t):
         else:
             t.ints()
         info.update(S=S, I=I, K=K, ttype=tt)
-        if fam == "lin":
+        if fam in ("linsub", "gbiassub"):
+            info["subset"] = t.ints()
+        if fam in ("lin", "linsub"):
             info["l1"] = t.f(); info["l2"] = t.f()
         if fam == "gscale":
             t.int(); t.ints(); t.fs(); t.fs()
@@ -867,7 +1098,7 @@ def check_convex(name, fam, info, mu, x, fx, gx, z, fz):
     plain = fx + gd - fz
     if mu > 0.0 and plain <= tol:
         key = f"{name}:strong-convexity"
-        if fam == "lin":
+        if fam in ("lin", "linsub"):
             nW = info["I"] * info["K"]
             bias_moves = any(v != 0.0 for v in dz[nW:])
             key = "linear-function:strong-convexity:bias-direction" if bias_moves else "linear-function:strong-convexity:weights-only"
@@ -951,6 +1182,212 @@ def nonsymmetric_P(op):
     return any(P[i * n + j] != P[j * n + i] for i in range(n) for j in range(n))
 
 
+def unwritten(name, g):
+    """a gradient component still equal to the harness' pre-fill was never written by the library"""
+    for i, v in enumerate(g):
+        if f2h(v) == SENTINEL:
+            return f"[{name}:gradient-unwritten] component {i} of the returned gradient was never written (still the sentinel)"
+    return None
+
+
+def expected_size(fid, dims):
+    """size() of make(dims, summands) as the constructors document it: powell works on groups of four coordinates,
+    rosenbrock and the synthetic linear models need two coordinates, everything else has the requested dimension"""
+    if fid == "powell":
+        return max(4, dims - dims % 4)
+    if fid == "rosenbrock" or "+" in fid:
+        return max(dims, 2)
+    return dims
+
+
+def jacobi_eigenvalues(A):
+    """eigenvalues of a symmetric matrix (cyclic Jacobi), independent of Eigen"""
+    n = len(A)
+    A = [row[:] for row in A]
+    for _ in range(60):
+        off = math.sqrt(sum(A[i][j] ** 2 for i in range(n) for j in range(n) if i != j))
+        if off <= 1e-15 * (1e-300 + math.sqrt(sum(A[i][i] ** 2 for i in range(n)))):
+            break
+        for p_ in range(n):
+            for q_ in range(p_ + 1, n):
+                if A[p_][q_] == 0.0:
+                    continue
+                th = (A[q_][q_] - A[p_][p_]) / (2.0 * A[p_][q_])
+                tt = (1.0 if th >= 0 else -1.0) / (abs(th) + math.sqrt(th * th + 1.0))
+                c = 1.0 / math.sqrt(tt * tt + 1.0)
+                sn = tt * c
+                for k in range(n):
+                    akp, akq = A[k][p_], A[k][q_]
+                    A[k][p_], A[k][q_] = c * akp - sn * akq, sn * akp + c * akq
+                for k in range(n):
+                    apk, aqk = A[p_][k], A[q_][k]
+                    A[p_][k], A[q_][k] = c * apk - sn * aqk, sn * apk + c * aqk
+    return sorted(A[i][i] for i in range(n))
+
+
+def symmetric_part(flat):
+    n = int(round(math.sqrt(len(flat))))
+    return [[0.5 * (flat[i * n + j] + flat[j * n + i]) for j in range(n)] for i in range(n)]
+
+
+def check_quadratic_flags(name, Pflat, convex, mu):
+    """run-time monitor of the contract of nano::convex / nano::strong_convexity (Eigen's eigenvalues) for the quadratic
+    constraint kinds: `convex` iff the SYMMETRIC part of P is positive semi-definite, mu = max(0, its smallest eigenvalue) —
+    decided only when the smallest eigenvalue is away from 0 by more than the tolerance"""
+    ev = jacobi_eigenvalues(symmetric_part(Pflat))
+    scale = max(1.0, max(abs(v) for v in ev))
+    lo = ev[0]
+    if lo > 1e-9 * scale and not convex:
+        return f"[{name}:flags-vs-symmetric-part] (P+P')/2 is positive definite (smallest eigenvalue {lo!r}) but the constraint is not declared convex"
+    if lo < -1e-9 * scale and convex:
+        return f"[{name}:flags-vs-symmetric-part] (P+P')/2 has the eigenvalue {lo!r} < 0 but the constraint is declared convex"
+    if abs(mu - max(0.0, lo)) > 1e-9 * scale:
+        return f"[{name}:flags-vs-symmetric-part] declared strong convexity {mu!r} but the smallest eigenvalue of (P+P')/2 is {lo!r}"
+    return None
+
+
+def oracle_flags(toks, aug_rest, r):
+    """fn flags <id> <dims> <summands>: the size rule for every requested dims, and the declared coefficient against what is
+    known about the prototype (an upper bound of the true modulus; the search tests the inequality itself)"""
+    fid, dims = toks[2], int(toks[3])
+    name = "fn:" + fid
+    size = r.int(); convex = r.int(); r.int(); mu = r.f()
+    if size != expected_size(fid, dims):
+        return f"[{name}:size-rule] make({dims}, .)->size() = {size}, expected {expected_size(fid, dims)}"
+    if not (mu >= 0.0) or not finite(mu):
+        return f"[{name}:strong-convexity-value] declared coefficient {mu!r}"
+    upper = None
+    if fid in ("sphere", "axis-ellipsoid"):
+        upper = 2.0                              # Hessian 2 I / 2 diag(1..n)
+    elif fid == "exponential":
+        upper = 2.0 * math.e / size              # Hessian at 0: (2 e / n) I
+    elif fid in ("kinks", "maxhilb", "schumer-steiglitz", "chung-reynolds", "maxq", "chained_lq", "geometric-optimization"):
+        upper = 0.0                              # piecewise linear / flat Hessian somewhere / infimum of the curvature 0
+    elif fid == "quadratic":
+        a = aug_rest.fs(); A = aug_rest.fs()
+        n = len(a)
+        M = [A[i * n:(i + 1) * n] for i in range(n)]
+        if any(abs(M[i][j] - M[j][i]) > 1e-12 * (1.0 + abs(M[i][j])) for i in range(n) for j in range(n)):
+            return f"[{name}:not-symmetric] the matrix of the quadratic is not symmetric (the returned a + A x is then not the gradient)"
+        ev = jacobi_eigenvalues(M)
+        if ev[0] < -1e-9 * max(1.0, ev[-1]) and convex:
+            return f"[{name}:convexity] declared convex but its matrix has the eigenvalue {ev[0]!r}"
+        upper = max(0.0, ev[0]) * (1.0 + 1e-9) + 1e-12
+    elif fid == "maxquad":
+        # hypothesis of maxquad_subgrad (every A_k self-adjoint, positive semi-definite), established by the constructor through
+        # symmetric fill + diagonal dominance with a non-negative diagonal (Gershgorin): monitored on the recomputed matrices
+        K = aug_rest.int(); n = aug_rest.int(); A = aug_rest.fs()
+        for k in range(K):
+            M = [A[k * n * n + i * n:k * n * n + (i + 1) * n] for i in range(n)]
+            for i in range(n):
+                off = math.fsum(abs(M[i][j]) for j in range(n) if j != i)
+                if any(M[i][j] != M[j][i] for j in range(n)) or M[i][i] < off * (1.0 - 1e-12):
+                    return f"[{name}:matrices-not-dominant] A_{k} is not symmetric / diagonally dominant in row {i}"
+    if upper is not None and mu > upper * (1.0 + 1e-12):
+        return f"[{name}:strong-convexity-value] declared coefficient {mu!r} exceeds the modulus {upper!r} of the function"
+    return None
+
+
+# ---- fbase: an independent replay of the bookkeeping of function_t (python) -----------------------------------------
+
+def fbase_violation(c, x):
+    """how much x violates the constraint (None when the python side does not evaluate it: functional kinds other than sphere)"""
+    k = c[0]
+    if k in ("constant", "minimum", "maximum"):
+        v, dim = c[1], c[2]
+        return abs(v - x[dim]) if k == "constant" else (max(v - x[dim], 0.0) if k == "minimum" else max(x[dim] - v, 0.0))
+    if k.startswith("ball"):
+        o, rad = c[1], c[2]
+        v = sum((a - b) * (a - b) for a, b in zip(x, o)) - rad * rad
+    elif k.startswith("linear"):
+        v = sum(a * b for a, b in zip(c[1], x)) + c[2]
+    elif k.startswith("quadratic"):
+        P, q, rr, n = c[1], c[2], c[3], len(x)
+        v = 0.5 * sum(x[i] * sum(P[i * n + j] * x[j] for j in range(n)) for i in range(n)) + sum(a * b for a, b in zip(q, x)) + rr
+    elif k.startswith("functional") and c[1] == "sphere":
+        v = sum(a * a for a in x)
+    else:
+        return None
+    return abs(v) if k.endswith("-eq") else max(v, 0.0)
+
+
+def oracle_fbase(t, r):
+    fid = t.s(); dims = t.int(); t.int(); k = t.int()
+    name = "fbase:" + fid
+    size = r.int(); f0 = r.int(); g0 = r.int(); n0 = r.int()
+    if size != expected_size(fid, dims) or f0 != 0 or g0 != 0 or n0 != 0:
+        return f"[{name}:fresh] a fresh function reports size {size}, {f0} / {g0} calls, {n0} constraints"
+    sizes = dump()["sizes"]
+    cons, fc, gc = [], 0, 0
+    for step in range(k):
+        o = t.s()
+        exp_ans = None
+        if o == "cg":
+            kind = t.s()
+            if kind in ("constant", "minimum", "maximum"):
+                v, dim = t.f(), t.int()
+                ok, c = 0 <= dim < size, (kind, v, dim)
+            elif kind.startswith("ball"):
+                org, rad = t.fs(), t.f()
+                ok, c = len(org) == size and rad > 0.0, (kind, org, rad)
+            elif kind.startswith("linear"):
+                q, rr = t.fs(), t.f()
+                ok, c = len(q) == size, (kind, q, rr)
+            elif kind.startswith("quadratic"):
+                rows, cols = t.int(), t.int(); P, q, rr = t.fs(), t.fs(), t.f()
+                ok, c = rows == size and cols == size and len(q) == size, (kind, P, q, rr)
+            else:
+                wid, wd = t.s(), t.int()
+                ok, c = sizes[wid][wd - 1] == size, (kind, wid)
+            if ok:
+                cons.append(c)
+            exp_ans = 1 if ok else 0
+        elif o == "cb":
+            lo, hi = t.f(), t.f()
+            if lo < hi:
+                for i in range(size):
+                    cons += [("minimum", lo, i), ("maximum", hi, i)]
+            exp_ans = 1 if lo < hi else 0
+        elif o == "cd":
+            lo, hi, dim = t.f(), t.f(), t.int()
+            ok = lo < hi and 0 <= dim < size
+            if ok:
+                cons += [("minimum", lo, dim), ("maximum", hi, dim)]
+            exp_ans = 1 if ok else 0
+        elif o == "cv":
+            lo, hi = t.fs(), t.fs()
+            ok = len(lo) == size and len(hi) == size and all(b - a > 0.0 for a, b in zip(lo, hi))
+            if ok:
+                for i in range(size):
+                    cons += [("minimum", lo[i], i), ("maximum", hi[i], i)]
+            exp_ans = 1 if ok else 0
+        elif o == "v":
+            x = t.fs()
+            viol = [fbase_violation(c, x) for c in cons]
+            if all(v is not None for v in viol):
+                exp_ans = 1 if all(v < EPS for v in viol) else 0
+        elif o in ("e0", "e1"):
+            t.fs()
+            fc += 1
+            gc += 1 if o == "e1" else 0
+        elif o == "clr":
+            fc = gc = 0
+        else:
+            return f"[fbase] unknown op {o}"
+        ans = r.s(); n = r.int(); neq = r.int(); nineq = r.int(); fcalls = r.int(); gcalls = r.int()
+        where = f"step {step} ({o})"
+        if exp_ans is not None and ans != str(exp_ans):
+            key = "valid" if o == "v" else "constrain-acceptance"
+            return f"[{name}:{key}] {where}: answered {ans}, expected {exp_ans}"
+        eq = sum(1 for c in cons if c[0] == "constant" or c[0].endswith("-eq"))
+        if n != len(cons) or neq != eq or nineq != len(cons) - eq:
+            return (f"[{name}:constraint-count] {where}: {n} constraints ({neq} equalities, {nineq} inequalities), expected "
+                    f"{len(cons)} ({eq}, {len(cons) - eq})")
+        if fcalls != fc or gcalls != gc:
+            return f"[{name}:call-counters] {where}: fcalls {fcalls}, gcalls {gcalls}, expected {fc}, {gc}"
+    return None
+
+
 def oracle(op, res):
     why = oracle_(op, res)
     if why and nonsymmetric_P(op):
@@ -962,6 +1399,11 @@ def oracle_(op, res):
     toks, tag = split_tag(op)
     t = Toks(" ".join(toks))
     r = Toks(res)
+    if tag == "rejected-alpha":
+        # the witness of a negative pinball value needs alpha outside [0, 1]: the parameter must refuse it
+        if res.startswith("throw"):
+            return None
+        return f"[loss:pinball:alpha-domain-not-enforced] alpha outside [0, 1] was accepted: {res[:80]}"
     if r.s() != "ok":
         return f"[no-answer] implementation did not answer ok: {res[:120]}"
     fam, o = toks[0], toks[1]
@@ -970,8 +1412,12 @@ def oracle_(op, res):
         lid, alpha, T, O = oracle_sample(t)
         value = r.f(); g = r.fs(); err = r.f(); convex = r.int(); r.int()
         name = "loss:" + lid
+        if unwritten(name, g):
+            return unwritten(name, g)
         if not finite(value, err, *g):
             return f"[{name}:non-finite] non-finite value/gradient/error"
+        if tag == "negative-witness" and not value < 0.0:
+            return f"[{name}:witness-not-reproduced] the kernel-checked witness of a negative value gives {value!r} on the code"
         npos = sum(1 for v in T if v > 0)
         if value < 0.0 and not (lid == "s-classnll" and npos != 1):
             return f"[{name}:negative-value] loss value {value!r} < 0"
@@ -995,12 +1441,20 @@ def oracle_(op, res):
             if not vlib.close(err, l1, 1e-12, 1e-300):
                 return f"[{name}:error] error {err!r} != L1 distance {l1!r}"
         return None
-    if fam == "loss" and o == "batch":
+    if fam == "fbase":
+        t.s(); t.s()
+        return oracle_fbase(t, r)
+    if fam == "fn" and o == "flags":
+        return oracle_flags(toks, Toks(" ".join(toks[5:])), r)
+    if fam == "loss" and o in ("batch", "batch4"):
         vals = []
         while not r.done():
             vals.append(r.fs())
         if len(vals) != 6:
             return "[loss:batch] malformed answer"
+        for v in vals:
+            if any(f2h(x) == SENTINEL for x in v):
+                return f"[loss:{toks[2]}:result-unwritten] an entry of a result tensor was never written (still the sentinel)"
         # the same numbers up to rounding: Eigen evaluates exp/log with packet or scalar code depending on the alignment of
         # the sample inside the batch (1 ulp apart); errors (counts / L1 distances) and everything else must agree to 1e-12
         for k, what in enumerate(("value", "error", "gradient")):
@@ -1016,6 +1470,8 @@ def oracle_(op, res):
         size = r.int(); f0 = r.f(); f1 = r.f(); g = r.fs()
         if size != len(x) or len(g) != size:
             return f"[{name}:size] size {size}, point {len(x)}, gradient {len(g)}"
+        if unwritten(name, g):
+            return unwritten(name, g)
         if not same_value(info, f0, f1):
             return f"[{name}:value-only-differs] value-only call {f0!r} != value+gradient call {f1!r}"
         if not finite(f0, *g):
@@ -1027,8 +1483,14 @@ def oracle_(op, res):
         convex = r.int(); smooth = r.int(); mu = r.f()
         f0 = r.f(); f1 = r.f(); g = r.fs()
         fs = [f1] + [r.f() for _ in range(k - 1)]
+        if unwritten(name, g):
+            return unwritten(name, g)
         if not same_value(info, f0, f1):
             return f"[{name}:value-only-differs] value-only call {f0!r} != value+gradient call {f1!r}"
+        if fam == "ct" and "P" in info:
+            why = check_quadratic_flags(name, info["P"], bool(convex), mu)
+            if why:
+                return why
         if o == "cd":
             if k != 5:
                 return "[cd] needs 5 points"
@@ -1039,10 +1501,16 @@ def oracle_(op, res):
             why = check_convex(name, fam, info, mu, P[0], f1, g, z, fz)
             if why:
                 return why
+        if not r.done() and r.s() == "isconvex" and r.int() != 1:
+            # the sub-gradient inequality held for every pair above, so the chord inequality holds in exact arithmetic
+            return (f"[{name}:is_convex-rejects] nano::is_convex (src/function/util.cpp) rejects a pair of points of a function "
+                    f"whose declared convexity (mu={mu:g}) passed the sub-gradient test")
         return None
     if o == "climb":
         convex = r.int(); r.int(); mu = r.f()
         x = r.fs(); z = r.fs(); f0 = r.f(); f1 = r.f(); g = r.fs(); fz = r.f()
+        if unwritten(name, g):
+            return unwritten(name, g)
         if not same_value(info, f0, f1):
             return f"[{name}:value-only-differs] value-only call {f0!r} != value+gradient call {f1!r}"
         if not convex:
@@ -1073,6 +1541,8 @@ def nontrivial(op):
         return False
     fam, o = t[0], t[1]
     try:
+        if fam == "loss" and o == "batch4":
+            return int(t[7]) >= 2  # number of samples
         if fam == "loss":
             return int(t[4]) >= 2  # number of outputs (length of the target list)
         if fam == "fn":
